@@ -106,6 +106,7 @@ package analysis
 //@   props C10
 //@   requires e != nil && !e.IsIota
 //@   modifies e.IsIota, contents(e.Members)
+//@   ghostset iotaChecked e
 //@   -- nothing lost, nothing invented
 //@   ensures forall i int :: 0 <= i && i < len(e.Members) ==> (exists j int :: 0 <= j && j < len(e.Members) && e.Members[i] == old(e.Members[j]))
 //@   ensures forall j int :: 0 <= j && j < len(e.Members) ==> (exists i int :: 0 <= i && i < len(e.Members) && e.Members[i] == old(e.Members[j]))
@@ -123,3 +124,46 @@ package analysis
 //@   loop 1 invariant forall v int :: has(seen, v) ==> seen[v]
 //@   loop 1 invariant max >= -1 && within(domain(seen), max) && (max == -1 || has(seen, max))
 //@   loop 1 invariant forall s, t int :: 0 <= s && s < k && 0 <= t && t < k && s != t && isExp(e.Members[s]) && isExp(e.Members[t]) ==> ival(e.Members[s]) != ival(e.Members[t])
+
+// the trailing comment is read from the syntax tree (position based navigation, outside the
+// verified subset): assumed to be a function of the constant. Its safety is a C18 matter.
+//@ func fetchConstComment
+//@   pure
+//@   trusted
+
+// the constant named nm of package pa makes the named type N an enum
+//@ pred enumConst(pa *packages.Package, nm string, N *types.Named) bool =
+//@      is(pa.Types.Scope().Lookup(nm), *types.Const)
+//@   && is(as(pa.Types.Scope().Lookup(nm), *types.Const).Type(), *types.Named)
+//@   && as(pa.Types.Scope().Lookup(nm), *types.Const).Type() == N
+//@   && !strings.Contains(fetchConstComment(pa, as(pa.Types.Scope().Lookup(nm), *types.Const)), IgnoreDeclComment)
+
+// member k of enum en is exactly the constant named nm, with its trailing comment
+//@ pred isMemberOf(pa *packages.Package, nm string, m EnumMember) bool =
+//@      m.Const == pa.Types.Scope().Lookup(nm) && m.Comment == fetchConstComment(pa, as(pa.Types.Scope().Lookup(nm), *types.Const))
+
+//@ func fetchPkgEnums
+//@   props C10
+//@   requires pa != nil
+//@   -- a named type is an enum exactly when the package declares a typed constant of it that is not opted out
+//@   ensures forall N *types.Named :: has(result, N) <==> (exists i int :: 0 <= i && i < len(pa.Types.Scope().Names()) && enumConst(pa, pa.Types.Scope().Names()[i], N))
+//@   ensures forall N *types.Named :: has(result, N) ==> result[N] != nil && result[N].name == N
+//@   -- every detected enum has been classified by setIsIota (whose contract says what the flag means)
+//@   ensures forall N *types.Named :: has(result, N) ==> ghost("iotaChecked", result[N]) == 1
+//@   -- loop 1 builds the member lists: all those constants (invariant 5) and nothing else (invariant 6), each
+//@   -- with its trailing comment; loop 2 only applies setIsIota, whose own contract says the members are permuted.
+//@   loop 1 index n
+//@   loop 1 invariant forall N *types.Named :: has(out, N) <==> (exists i int :: 0 <= i && i < n && enumConst(pa, scope.Names()[i], N))
+//@   loop 1 invariant forall N *types.Named :: has(out, N) ==> out[N] != nil && out[N].name == N && !out[N].IsIota && !isnil(out[N].Members)
+//@   loop 1 invariant forall N *types.Named :: has(out, N) ==> allocated(out[N]) && fresh(out[N]) && allocated(out[N].Members) && fresh(out[N].Members)
+//@   loop 1 invariant forall N1, N2 *types.Named :: has(out, N1) && has(out, N2) && N1 != N2 ==> out[N1] != out[N2] && ref(out[N1].Members) != ref(out[N2].Members)
+//@   loop 1 invariant forall N *types.Named, i int :: 0 <= i && i < n && enumConst(pa, scope.Names()[i], N) ==> (exists k int :: 0 <= k && k < len(out[N].Members) && isMemberOf(pa, scope.Names()[i], out[N].Members[k]))
+//@   loop 1 invariant forall N *types.Named, k int :: has(out, N) && 0 <= k && k < len(out[N].Members) ==> (exists i int :: 0 <= i && i < n && enumConst(pa, scope.Names()[i], N) && isMemberOf(pa, scope.Names()[i], out[N].Members[k]))
+//@   loop 1 invariant framedField(Enum, Members) && framedField(Enum, IsIota) && framedField(Enum, name) && framedElems(EnumMember)
+//@   loop 2 visited done
+//@   loop 2 invariant forall N *types.Named :: has(out, N) ==> out[N] != nil && out[N].name == N && !isnil(out[N].Members)
+//@   loop 2 invariant forall N *types.Named :: has(out, N) ==> fresh(out[N]) && fresh(out[N].Members)
+//@   loop 2 invariant forall N *types.Named :: has(out, N) && !done[N] ==> !out[N].IsIota
+//@   loop 2 invariant forall N *types.Named :: has(out, N) && done[N] ==> ghost("iotaChecked", out[N]) == 1
+//@   loop 2 invariant forall N1, N2 *types.Named :: has(out, N1) && has(out, N2) && N1 != N2 ==> out[N1] != out[N2] && ref(out[N1].Members) != ref(out[N2].Members)
+//@   loop 2 invariant framedField(Enum, Members) && framedField(Enum, IsIota) && framedElems(EnumMember) && framedGhost("iotaChecked")
